@@ -180,6 +180,11 @@ RetVerdicts(R, c, lineNo, tag) ==
         \* C04: required / not_nil issues; absent nodes hold default or stay untouched
         [bad |-> ok /\ BagOf(OnlyReq(ri)) # BagOf(OnlyReq(ref)),
          v |-> mk("C04", "required-issues", [got |-> OnlyReq(ri), want |-> OnlyReq(ref)])],
+        \* at and below every node whose input is absent the destination is what C04 says (default, or untouched), in every Parse
+        [bad |-> ok /\ c.mode = "parse" /\ \E q \in AbsentDPP(c.schema, c.input, <<>>, c.fe) :
+                        \E y \in DOMAIN rd \cup DOMAIN refd : IsPathPrefix(q, y) /\ (y \notin DOMAIN rd \/ y \notin DOMAIN refd \/ rd[y] # refd[y]),
+         v |-> mk("C04", "absent-dest", [diff |-> {y \in DOMAIN rd \cup DOMAIN refd : (y \notin DOMAIN rd \/ y \notin DOMAIN refd \/ rd[y] # refd[y])
+                                                     /\ \E q \in AbsentDPP(c.schema, c.input, <<>>, c.fe) : IsPathPrefix(q, y)}])],
         \* rows of the C04 decision table: default applied / destination untouched, whatever else failed
         [bad |-> ok /\ tag = "c04" /\ rd # refd,
          v |-> mk("C04", "dest", [diff |-> Differs(rd, refd, DOMAIN rd \cup DOMAIN refd)])],
